@@ -387,6 +387,25 @@ example : (∀ l ∈ [[' ', ' ', '"', 'a'], [' ', ' ', 'b', '"']], openerTight l
   decide
 
 open NemoVerif.NumberedLines in
+/-- Colang 1.0, FILE CONTENT: scaling the leading spaces of every line by any `k` multiplies every record's indentation by `k` and changes
+    nothing else, provided every possible first line of a multi-line string is tight (see `numbered_lines_scale_partial`). -/
+theorem numbered_content_scale_partial (k : Nat) (content : Str) (h : ∀ l ∈ splitNL content, openerTight l = true) :
+    numberedText (scaleContent k content) = (numberedText content).map (List.map (scaleRec k)) := by
+  unfold numberedText scaleContent
+  rw [splitNL_joinNL _ (by simp [splitNL_ne_nil]) (by
+    intro l hl
+    obtain ⟨l0, hl0, rfl⟩ := List.mem_map.1 hl
+    exact scaleLine_noNL k l0 (splitNL_noNL_mem content l0 hl0))]
+  exact numbered_scale k (splitNL content) h
+
+
+open NemoVerif.NumberedLines in
+/-- non-vacuity: content `def a⏎  "x⏎  y"` (a tight multi-line string) scaled by 2. -/
+example : (∀ l ∈ splitNL "def a\n  \"x\n  y\"".toList, openerTight l = true) ∧
+    scaleContent 2 "def a\n  \"x\n  y\"".toList = "def a\n    \"x\n    y\"".toList := by
+  decide
+
+open NemoVerif.NumberedLines in
 /-- kernel-checked counterexample (finite fact) to the statement without `openerTight`: `  "a␠␠` / `  b"` has indentation 4
     (2 leading + 2 trailing blanks); scaled by 2 the code gives 6, the scaled record would need 8.  (Replayed on the real
     `get_numbered_lines` by the corpus case `v1_scale_opener_trailing`; the flows are the same - the 1.0 parser only compares.) -/
